@@ -452,6 +452,49 @@ TABLE += [
 ]
 
 
+# ---- C11 (TorchWrapper): axis lists of the np.moveaxis calls ------------------------------------
+def list_elt_of_call_arg(fname, k, arg_index, elt_index):
+    """element `elt_index` of the list literal passed as positional argument `arg_index` to the k-th call of fname"""
+    def finder(fn):
+        c = nth_call(fname, k)(fn)
+        if len(c.args) <= arg_index or not isinstance(c.args[arg_index], (ast.List, ast.Tuple)):
+            raise Untranslatable(f"arg {arg_index} of {fname} is not a list literal")
+        elts = c.args[arg_index].elts
+        if len(elts) != 3:
+            raise Untranslatable(f"arg {arg_index} of {fname}: expected 3 axes, found {len(elts)}")
+        return elts[elt_index]
+    return finder
+
+
+TABLE += [
+    # C11: axis lists of the two np.moveaxis calls of TorchWrapper (dummy parameter `u`)
+    ("twInSrc0", "u", "wrappers/pytorch.py", "TorchWrapper", "np_img_to_torch",
+     list_elt_of_call_arg("moveaxis", 0, 1, 0), {}, "(3 : Int)"),
+    ("twInSrc1", "u", "wrappers/pytorch.py", "TorchWrapper", "np_img_to_torch",
+     list_elt_of_call_arg("moveaxis", 0, 1, 1), {}, "(1 : Int)"),
+    ("twInSrc2", "u", "wrappers/pytorch.py", "TorchWrapper", "np_img_to_torch",
+     list_elt_of_call_arg("moveaxis", 0, 1, 2), {}, "(2 : Int)"),
+    ("twInDst0", "u", "wrappers/pytorch.py", "TorchWrapper", "np_img_to_torch",
+     list_elt_of_call_arg("moveaxis", 0, 2, 0), {}, "(1 : Int)"),
+    ("twInDst1", "u", "wrappers/pytorch.py", "TorchWrapper", "np_img_to_torch",
+     list_elt_of_call_arg("moveaxis", 0, 2, 1), {}, "(2 : Int)"),
+    ("twInDst2", "u", "wrappers/pytorch.py", "TorchWrapper", "np_img_to_torch",
+     list_elt_of_call_arg("moveaxis", 0, 2, 2), {}, "(3 : Int)"),
+    ("twOutSrc0", "u", "wrappers/pytorch.py", "TorchWrapper", "call",
+     list_elt_of_call_arg("moveaxis", 0, 1, 0), {}, "(1 : Int)"),
+    ("twOutSrc1", "u", "wrappers/pytorch.py", "TorchWrapper", "call",
+     list_elt_of_call_arg("moveaxis", 0, 1, 1), {}, "(2 : Int)"),
+    ("twOutSrc2", "u", "wrappers/pytorch.py", "TorchWrapper", "call",
+     list_elt_of_call_arg("moveaxis", 0, 1, 2), {}, "(3 : Int)"),
+    ("twOutDst0", "u", "wrappers/pytorch.py", "TorchWrapper", "call",
+     list_elt_of_call_arg("moveaxis", 0, 2, 0), {}, "(3 : Int)"),
+    ("twOutDst1", "u", "wrappers/pytorch.py", "TorchWrapper", "call",
+     list_elt_of_call_arg("moveaxis", 0, 2, 1), {}, "(1 : Int)"),
+    ("twOutDst2", "u", "wrappers/pytorch.py", "TorchWrapper", "call",
+     list_elt_of_call_arg("moveaxis", 0, 2, 2), {}, "(2 : Int)"),
+]
+
+
 def generate():
     status = {}
     lines = [
